@@ -163,6 +163,102 @@ def parseMeta (t : String) : Option FMeta :=
   | [some m, some u, some g, some t] => some ⟨m, u, g, t, []⟩
   | _ => none
 
+/-- Rust's `Path::components()` on raw bytes -/
+def parseRPath (b : List UInt8) : RPath :=
+  let isAbs := match b with | 47 :: _ => true | _ => false
+  let parts := (Gi.splitSlash b).filter (· ≠ [])
+  let comps := parts.zipIdx.filterMap fun (c, i) =>
+    if c = [46] then (if i = 0 && !isAbs then some Comp.cur else none)
+    else if c = [46, 46] then some Comp.parent
+    else some (Comp.name c)
+  let trail := match b.reverse with | 47 :: _ :: _ => true | 46 :: 47 :: _ => true | _ => false
+  ⟨isAbs, comps, trail⟩
+
+def absNames (b : List UInt8) : List Name := (Gi.splitSlash b).filter (· ≠ [])
+
+def parseKind : String → Option FileKind
+  | "fifo" => some .fifo | "sock" => some .socket | "chr" => some .chr | "blk" => some .blk | "other" => some .other
+  | _ => none
+
+def showKind : FileKind → String
+  | .fifo => "fifo" | .socket => "sock" | .chr => "chr" | .blk => "blk" | .other => "other"
+  | .file => "file" | .dir => "dir" | .symlink => "link"
+
+def addTreeTok (root : Node) (t : String) : Option Node :=
+  match t.splitOn ":" with
+  | ["d", p] => (parseHex p).map fun p => root.setAt (absNames p) (.dir [])
+  | ["f", p, id] => match parseHex p, id.toNat? with
+    | some p, some id => some (root.setAt (absNames p) (.file id))
+    | _, _ => none
+  | ["l", p, t] => match parseHex p, parseHex t with
+    | some p, some t => some (root.setAt (absNames p) (.link (parseRPath t)))
+    | _, _ => none
+  | ["s", p, k, r] => match parseHex p, parseKind k, r.toNat? with
+    | some p, some k, some r => some (root.setAt (absNames p) (.special k r))
+    | _, _, _ => none
+  | _ => none
+
+def buildTree : Node → List String → Option Node
+  | root, [] => some root
+  | root, t :: r => match addTreeTok root t with
+    | some root' => buildTree root' r
+    | none => none
+
+def addOptTok (o : Opts) (t : String) : Option Opts :=
+  match t.splitOn ":" with
+  | ["r"] => some { o with cfg := { o.cfg with recursive := true } }
+  | ["T"] => some { o with cfg := { o.cfg with noTargetDir := true } }
+  | ["n"] => some { o with cfg := { o.cfg with noClobber := true } }
+  | ["L"] => some { o with cfg := { o.cfg with dereference := true } }
+  | ["gitignore"] => some { o with cfg := { o.cfg with gitignore := true } }
+  | ["glob"] => some { o with glob := true }
+  | ["force"] => some { o with force := true }
+  | ["tdir", h] => (parseHex h).map fun b => { o with targetDir := some (parseRPath b) }
+  | ["p", h] => (parseHex h).map fun b => { o with paths := o.paths ++ [parseRPath b] }
+  | _ => none
+
+def buildOpts : Opts → List String → Option Opts
+  | o, [] => some o
+  | o, t :: r => match addOptTok o t with
+    | some o' => buildOpts o' r
+    | none => none
+
+def pathBytes (ns : List Name) : List UInt8 := ns.flatMap fun n => 47 :: n
+
+partial def dumpNode (pre : List Name) : Node → List String
+  | .file c => [s!"{showHex (pathBytes pre)}=f:{c}"]
+  | .link t =>
+    let txt : List UInt8 := (if t.abs then [47] else []) ++
+      ((t.comps.map fun c => match c with | .cur => [46] | .parent => [46, 46] | .name n => n).intersperse [47]).flatten
+    [s!"{showHex (pathBytes pre)}=l:{showHex txt}"]
+  | .special k r => [s!"{showHex (pathBytes pre)}=s:{showKind k}:{r}"]
+  | .dir es => (if pre.isEmpty then [] else [s!"{showHex (pathBytes pre)}=d"]) ++ es.flatMap fun (n, c) => dumpNode (pre ++ [n]) c
+
+def showReject (r : Reject) : String := (reprStr r).replace "Xcp.Reject." ""
+
+def parseGiText (t : String) : Option (Nat × List UInt8) :=
+  match t.splitOn ":" with
+  | [id, h] => match id.toNat?, parseHex h with
+    | some id, some b => some (id, b)
+    | _, _ => none
+  | _ => none
+
+def runScen (rest : List String) : String :=
+  let (hd, r1) := splitBar rest
+  let (treeT, r2) := splitBar r1
+  let (optT, giT) := splitBar r2
+  match hd with
+  | [cwdH] =>
+    match parseHex cwdH, buildTree (.dir []) treeT, buildOpts {} optT, parseAll parseGiText giT with
+    | some cwd, some root, some o, some gi =>
+      let fs : Fs := ⟨root, absNames cwd⟩
+      let texts : GiTexts := gi
+      let verdict := match validate fs o with | .error e => " reject=" ++ showReject e | .ok _ => ""
+      let out := L1run fs o texts
+      s!"exit={if out.exit == .ok then "ok" else "err"}{verdict} | " ++ " ".intercalate (sortStrings (dumpNode [] out.fs.root))
+    | _, _, _, _ => "bad-op"
+  | _ => "bad-op"
+
 def answer (line : String) : String :=
   match (line.trimAscii.toString.splitOn " ").filter (· ≠ "") with
   | "merge" :: rest =>
@@ -281,6 +377,14 @@ def answer (line : String) : String :=
       | some n => s!"ok {calls} | {k} {n.mode} {n.rdev}"
       | none => s!"fail {calls}"
     | _, _, _, _, _, _, _ => "bad-op"
+  | "scen" :: rest => runScen rest
+  -- `gimatch <hexline> <hexpath relative> <isdir>` : does this one pattern line match?
+  | ["gimatch", l, p, d] =>
+    match parseHex l, parseHex p, parseBool d with
+    | some l, some p, some d => match Gi.parseLine l with
+      | some pat => s!"ok {pat.matches (absNames p) d}"
+      | none => "ok skip"
+    | _, _, _ => "bad-op"
   | ["sparse", blk, sz] =>
     match blk.toNat?, sz.toNat? with
     | some b, some s => s!"ok {probablySparse b s}"
